@@ -224,16 +224,16 @@ pub fn defs() -> Vec<WorldDef> {
     let slave_seed = vec![Ev::Ann(0, 0), Ev::Ann(0, 0), Ev::Bmca];
     vec![
         WorldDef { name: "1p-e2e", ports: vec![(false, false)], slave_only: false, seed: vec![], obedient: false, rich: true, depth: (4, 6) },
-        WorldDef { name: "1p-e2e-slave-seed", ports: vec![(false, false)], slave_only: false, seed: slave_seed.clone(), obedient: false, rich: true, depth: (4, 5) },
-        WorldDef { name: "1p-p2p", ports: vec![(true, false)], slave_only: false, seed: vec![], obedient: false, rich: false, depth: (4, 5) },
+        WorldDef { name: "1p-e2e-slave-seed", ports: vec![(false, false)], slave_only: false, seed: slave_seed.clone(), obedient: false, rich: true, depth: (3, 5) },
+        WorldDef { name: "1p-p2p", ports: vec![(true, false)], slave_only: false, seed: vec![], obedient: false, rich: false, depth: (3, 5) },
         WorldDef { name: "1p-p2p-slave-seed", ports: vec![(true, false)], slave_only: false, seed: slave_seed.clone(), obedient: false, rich: false, depth: (3, 5) },
-        WorldDef { name: "1p-e2e-aml", ports: vec![(false, false)], slave_only: false, seed: vec![], obedient: false, rich: false, depth: (4, 5) },
-        WorldDef { name: "2p-bc-seed", ports: vec![(false, false), (false, false)], slave_only: false, seed: vec![Ev::Ann(0, 0), Ev::Ann(0, 0), Ev::T(1, Timer::Receipt), Ev::Bmca], obedient: true, rich: false, depth: (3, 4) },
+        WorldDef { name: "1p-e2e-aml", ports: vec![(false, false)], slave_only: false, seed: vec![], obedient: false, rich: false, depth: (3, 5) },
+        WorldDef { name: "2p-bc-seed", ports: vec![(false, false), (false, false)], slave_only: false, seed: vec![Ev::Ann(0, 0), Ev::Ann(0, 0), Ev::T(1, Timer::Receipt), Ev::Bmca], obedient: true, rich: false, depth: (2, 4) },
         // port 1 accepts only A, port 2 only B; port 1 is slave of A
         WorldDef { name: "2p-bc-split-aml", ports: vec![(false, false), (false, false)], slave_only: false, seed: vec![Ev::Ann(0, 0), Ev::Ann(0, 0), Ev::Bmca], obedient: true, rich: false, depth: (3, 4) },
         // peer 1 is port 2 of A's clock: slave of A.2 first, then A.1 takes over as parent
         WorldDef { name: "1p-e2e-sibling-parent", ports: vec![(false, false)], slave_only: false, seed: vec![Ev::Ann(0, 1), Ev::Ann(0, 1), Ev::Bmca, Ev::Ann(0, 0), Ev::Ann(0, 0), Ev::Bmca], obedient: false, rich: true, depth: (3, 4) },
-        WorldDef { name: "2p-e2e+p2p", ports: vec![(false, false), (true, false)], slave_only: false, seed: vec![], obedient: true, rich: false, depth: (3, 5) },
+        WorldDef { name: "2p-e2e+p2p", ports: vec![(false, false), (true, false)], slave_only: false, seed: vec![], obedient: true, rich: false, depth: (2, 5) },
     ]
 }
 
@@ -278,10 +278,11 @@ pub fn run(tier: Tier) -> i32 {
     explore_all(&mut rep, &systems, |s| tier.pick(depths[&s.name].0, depths[&s.name].1), tier.pick(12.0, 300.0));
     let mut sweep: Vec<_> = build("C07", &mon, crate::c08::sweep_defs(true), false).into_iter().map(|(s, _)| s).collect();
     if tier == Tier::Quick {
-        // quick: the end-to-end layouts only (every state is probed with ~100 frames)
-        sweep.retain(|s| !s.name.contains("p2p"));
+        // quick: every state is probed with ~100 frames, so only the one-port end-to-end layout
+        // with single tokens and the two-port layout with all tokens, ordinary instances
+        sweep.retain(|s| !s.name.contains("+so") && ((s.name.starts_with("sweep-1p-e2e") && s.name.matches('+').count() <= 2 && !s.name.contains("+aml+pt")) || (s.name.starts_with("sweep-2p-e2e") && s.name.contains("+aml+pt+iv+sdo+b100+bcpeers"))));
     }
-    explore_more(&mut rep, "sweep", &sweep, tier.pick(2, 3), tier.pick(3.0, 60.0));
+    explore_more(&mut rep, "sweep", &sweep, tier.pick(2, 3), tier.pick(20.0, 120.0));
     rep.cover("noise_frame_classes", json!(32));
     rep.assume("one-step unwinding on the complete canonical state (all private fields of every port and of the instance state, host timers, rng draw count) implies trace equivalence because the code is deterministic");
     rep.finish()
